@@ -13,6 +13,7 @@ import (
 
 func init() {
 	gens["C01"] = genC01
+	gens["C02"] = genC02
 	gens["C03"] = genC03
 	gens["C04"] = genC04
 	gens["C12"] = genC12
@@ -323,4 +324,90 @@ func genC13(r *gen.Rng, tier string, emit func(string)) {
 			emit("det " + pduLine(p))
 		}
 	}
+}
+
+// C02: representable values (the specification frame is computed by the Lean side) plus values
+// just outside what the length fields can state.
+func genC02(r *gen.Rng, tier string, emit func(string)) {
+	n := scale(tier, 3000, 60000)
+	ts := canon.Types()
+	for i := 0; i < n; i++ {
+		t := ts[i%len(ts)]
+		d := gen.Representable
+		if r.Chance(15) {
+			d = gen.Unconstrained
+		}
+		p := r.PDU(t, d)
+		h := reflect.ValueOf(p).Elem().Field(0).Addr().Interface().(*pdu.Header)
+		h.CommandStatus = 0
+		if d == gen.Unconstrained {
+			if !representableBits(p) {
+				continue
+			}
+		}
+		emit("spec " + pduLine(p))
+	}
+}
+
+// representableBits filters unconstrained values down to those whose only problem can be size:
+// NUL-free strings, bit fields in range, UDH present iff UDHI, data_coding != 0xBF.
+func representableBits(p interface{}) bool {
+	v := reflect.ValueOf(p).Elem()
+	udhi, hasESM := false, false
+	ok := true
+	var walk func(x reflect.Value)
+	walk = func(x reflect.Value) {
+		switch x.Kind() {
+		case reflect.String:
+			if strings.ContainsRune(x.String(), 0) {
+				ok = false
+			}
+		case reflect.Struct:
+			switch e := x.Interface().(type) {
+			case pdu.ESMClass:
+				if e.MessageMode > 3 || e.MessageType > 15 {
+					ok = false
+				}
+			case pdu.RegisteredDelivery:
+				if e.MCDeliveryReceipt > 3 || e.SMEOriginatedAcknowledgment > 3 || e.Reserved > 7 {
+					ok = false
+				}
+			}
+			for i := 0; i < x.NumField(); i++ {
+				walk(x.Field(i))
+			}
+		case reflect.Slice:
+			if x.Type().Elem().Kind() != reflect.Uint8 {
+				for i := 0; i < x.Len(); i++ {
+					walk(x.Index(i))
+				}
+			}
+		}
+	}
+	walk(v)
+	for i := 0; i < v.NumField(); i++ {
+		if e, isE := v.Field(i).Interface().(pdu.ESMClass); isE && v.Type().Field(i).Name == "ESMClass" {
+			udhi, hasESM = e.UDHIndicator, true
+		}
+	}
+	for i := 0; i < v.NumField(); i++ {
+		if m, isM := v.Field(i).Interface().(pdu.ShortMessage); isM {
+			_, isReplace := p.(*pdu.ReplaceSM)
+			want := udhi && hasESM && !isReplace
+			if (m.UDHeader != nil) != want || (m.DataCoding == 0xBF && !isReplace) {
+				ok = false
+			}
+		}
+		if t, isT := v.Field(i).Interface().(pdu.Tags); isT {
+			for _, val := range t {
+				if len(val) == 0 {
+					ok = false
+				}
+			}
+		}
+	}
+	if pdu.ReadSequence(p) <= 0 {
+		ok = false
+	}
+	return ok
 }
